@@ -17,8 +17,8 @@ import numpy as np
 from .. import env, rng
 from ..storage import Storage, make_ths
 
-RULE = {'C20': 'seeded input sets (1..40 traces, thorough up to 70; several metadata kinds) x fault sequence over the traces from {accept, ResynchroError, '
-               'other Exception, None} in shapes {random density, all accept, all reject, first/last rejected, runs of >= 8/16/32 consecutive failures, alternate} '
+RULE = {'C20': 'seeded input sets (1..150 traces, a few 300-700; several metadata kinds; user function written in seven ways; check() before / after run(); returned dtype and value range) x fault sequence over the traces from {accept, ResynchroError, '
+               'other Exception, None} in shapes {random density, all accept, all reject, first/last rejected, runs of >= 8/16/32/64/256 consecutive failures, alternate} '
                'x returned length (=, <, > input length) x output as str/Path x a second run(); non-trivial = at least one rejection and one acceptance, or all rejected; '
                'distinct = distinct (n, fault pattern, returned length, metadata kinds)'}
 SIM_TIME_UNIT = {'C20': 'traces offered to the user function'}
